@@ -130,6 +130,12 @@ func (r *Runner) Resolve(ctx context.Context, v Expression) (result interface{},
 func try2Float64(v interface{}) interface{} {
 	switch n := v.(type) {
 	case *decimal.Big:
+		// decimal's own Float64 divides/multiplies by powers of ten in binary arithmetic and
+		// is off by an ulp (or underflows to 0) for many values; the decimal text converts
+		// to the nearest float64
+		if r, err := strconv.ParseFloat(n.String(), 64); err == nil || math.IsInf(r, 0) {
+			return r
+		}
 		r, _ := n.Float64()
 		return r
 	}
